@@ -91,3 +91,625 @@ Section Lib.
     pose proof (total_sub_balance U s from v Hnd Hf Hle). lia.
   Qed.
 End Lib.
+
+Ltac gen_unfold :=
+  unfold buygas_want, buygas_short, buygas_short_cost_old, buygas_short_gas, buygas_short_cost_fixed,
+    nonce_too_high, nonce_too_low, intrinsic_short, transfer_short, can_transfer,
+    next_nonce, next_nonce_failed, fee_amount, refund_cap, refund_over, refund_remaining, gas_used in *.
+
+Section Envelope.
+  Variable R : Type.
+  Variable clean : (addr -> bool) -> R -> R.
+  Variable run : bool -> state R -> msg -> N -> run_result R.
+  Notation state := (state R).
+
+  (** Ranges enforced by the Go types (uint64 gas, nonce) and by TransactionFromEIP155 (price). *)
+  Definition wf_msg (m : msg) : Prop := m_gas m < U64 /\ m_price m < U64 /\ m_nonce m < U64.
+
+  (** buyGas: what is debited ([cost]) and what is bought. *)
+  Lemma buy_gas_spec e (s : state) m : wf_msg m ->
+    let b := buy_gas e s m in
+    exists cost,
+      cost <= bal s (m_from m) /\
+      b_state b = set_bal s (m_from m) (bal s (m_from m) - cost) /\
+      cost <= m_gas m * m_price m /\
+      b_initial b * m_price m <= cost /\
+      (buygas_fixed (chain_id e) (height e) = true \/ b_adjusted b = false ->
+         cost = b_initial b * m_price m) /\
+      b_gas b = b_initial b /\ b_initial b <= m_gas m /\ b_initial b < U64.
+  Proof.
+    clear clean run. intros (Hg & Hp & Hn). cbv zeta. unfold buy_gas. gen_unfold.
+    rewrite U64_val in *.
+    destruct (N.ltb_spec (bal s (m_from m)) (m_gas m * m_price m)) as [Hlt|Hge].
+    - assert (Hp0 : m_price m <> 0) by (intros H0; rewrite H0, N.mul_0_r in Hlt; lia).
+      assert (Hq : bal s (m_from m) / m_price m < m_gas m)
+        by (apply N.div_lt_upper_bound; [assumption|rewrite N.mul_comm; assumption]).
+      pose proof (N.mul_div_le (bal s (m_from m)) (m_price m) Hp0) as Hle.
+      set (q := bal s (m_from m) / m_price m) in *.
+      rewrite (N.mod_small q) by lia. rewrite N.add_0_l. rewrite (N.mod_small q) by lia.
+      destruct (buygas_fixed (chain_id e) (height e)) eqn:Hfix.
+      + exists (q * m_price m). cbn [b_state b_gas b_initial b_adjusted].
+        assert (q * m_price m <= bal s (m_from m)) by lia.
+        rewrite sub_balance_ok by assumption.
+        repeat split; try reflexivity; try lia.
+      + exists (bal s (m_from m)). cbn [b_state b_gas b_initial b_adjusted].
+        rewrite sub_balance_ok by lia.
+        repeat split; try reflexivity; try lia.
+    - exists (m_gas m * m_price m). cbn [b_state b_gas b_initial b_adjusted].
+      rewrite sub_balance_ok by assumption. rewrite N.add_0_l, N.mod_small by lia.
+      repeat split; try reflexivity; lia.
+  Qed.
+  (** uint64 subtraction without wrap. *)
+  Lemma u64_sub_small a b : b <= a -> a < U64 -> u64_sub a b = a - b.
+  Proof. unfold u64_sub. rewrite U64_val. intros. lia. Qed.
+
+  Lemma plan_gas e (b : bought R) m : b_gas b < U64 ->
+    match plan_of e b m with PFail _ gl => gl <= b_gas b | PRun _ _ g => g <= b_gas b end.
+  Proof.
+    intros Hb. unfold plan_of. gen_unfold.
+    set (ig := intrinsic_gas _ _ _ _).
+    destruct (N.ltb_spec (b_gas b) ig).
+    - rewrite u64_sub_small by lia. lia.
+    - destruct (_ && _); [rewrite u64_sub_small by lia; lia|].
+      destruct (is_create m); rewrite u64_sub_small by lia; lia.
+  Qed.
+
+  (** The state handed to the interpreter is the state after buyGas, with the sender nonce already
+      advanced for a call. *)
+  Lemma plan_state e (b : bought R) m c s0 g : plan_of e b m = PRun c s0 g ->
+    c = is_create m /\
+    s0 = (if c then b_state b
+          else set_nonce (b_state b) (m_from m) (next_nonce (nonce (b_state b) (m_from m)))) /\
+    (m_value m <= bal (b_state b) (m_from m)).
+  Proof.
+    unfold plan_of. gen_unfold. set (ig := intrinsic_gas _ _ _ _).
+    destruct (b_gas b <? ig); [discriminate|].
+    destruct (N.ltb_spec 0 (m_value m)); destruct (N.leb_spec (m_value m) (bal (b_state b) (m_from m)));
+      cbn [andb negb]; try discriminate;
+      (destruct (is_create m); intros HH; inversion HH; subst; repeat split; lia).
+  Qed.
+
+  (** refundGas + handleGasFee applied to the sender. *)
+  Definition pay_back (e : env) (b : bought R) (m : msg) (s : state) (stgas : N) : state :=
+    let s1 := add_balance s (m_from m) (stgas * m_price m) in
+    if gasfee_skip (b_adjusted b) (height e) then s1 else add_balance s1 (m_from m) REFUND_VALUE.
+
+  Lemma finish_spec e (b : bought R) m (x : ran R) : b_initial b < U64 -> x_gas x <= b_initial b ->
+    exists stgas, x_gas x <= stgas /\ stgas <= b_initial b /\ (x_refund x = 0 -> stgas = x_gas x) /\
+      finish e b m x =
+        (add_balance (pay_back e b m (x_state x) stgas) (gas_receiver e)
+                     ((b_initial b - stgas) * m_price m),
+         mkRes (b_initial b - stgas) (x_err x)).
+  Proof.
+    intros HG Hx. unfold finish, pay_back. gen_unfold. rewrite U64_val in *.
+    set (G := b_initial b) in *. set (xg := x_gas x) in *.
+    assert (E1 : (G + 18446744073709551616 - xg) mod 18446744073709551616 = G - xg) by lia.
+    rewrite E1.
+    set (rf := if x_refund x <? (G - xg) / 2 then x_refund x else (G - xg) / 2).
+    assert (Hrf : rf <= (G - xg) / 2 /\ (x_refund x = 0 -> rf = 0)).
+    { unfold rf. destruct (N.ltb_spec (x_refund x) ((G - xg) / 2)); split; lia. }
+    destruct Hrf as [Hrf1 Hrf2].
+    assert (E2 : (xg + rf) mod 18446744073709551616 = xg + rf) by lia.
+    rewrite E2.
+    assert (E3 : (G + 18446744073709551616 - (xg + rf)) mod 18446744073709551616 = G - (xg + rf)) by lia.
+    rewrite E3.
+    exists (xg + rf). repeat split; try lia.
+  Qed.
+  (** * Hypotheses about the one interpreter invocation a transaction makes *)
+  Definition inv_holds (e : env) (s : state) (m : msg)
+      (P : bool -> state -> N -> run_result R -> Prop) : Prop :=
+    forall c s0 g, invocation e s m = Some (c, s0, g) -> P c s0 g (run c s0 m g).
+
+  (** left-over gas is at most the gas supplied *)
+  Definition H_gas e s m := inv_holds e s m (fun _ _ g r => r_gas r <= g).
+  (** H1: the interpreter conserves the ONG sum over [U] *)
+  Definition H_sum U e s m := inv_holds e s m (fun _ s0 _ r => total U (r_state r) = total U s0).
+  (** evm.Create advances the sender nonce, evm.Call leaves it alone *)
+  Definition H_nonce e s m := inv_holds e s m (fun c s0 _ r =>
+    nonce (r_state r) (m_from m) = if c then next_nonce (nonce s0 (m_from m)) else nonce s0 (m_from m)).
+  (** the interpreter debits the sender by at most the transferred value *)
+  Definition H_debit e s m := inv_holds e s m (fun _ s0 _ r =>
+    bal s0 (m_from m) <= bal (r_state r) (m_from m) + m_value m).
+  (** the sender (an externally owned account) does not self-destruct *)
+  Definition H_alive e s m := inv_holds e s m (fun _ _ _ r => suicided (r_state r) (m_from m) = false).
+  (** no storage error inside the interpreter *)
+  Definition H_nodberr e s m := inv_holds e s m (fun _ s0 _ r => dberr (r_state r) = dberr s0).
+  (** H2: a failing invocation leaves the state as at its snapshot (the nonce advanced by
+      evm.Create before its snapshot excepted) and the refund counter at 0 *)
+  Definition H_revert e s m := inv_holds e s m (fun _ s0 _ r => r_err r <> None ->
+    (forall a, bal (r_state r) a = bal s0 a) /\
+    (forall a, a <> m_from m -> nonce (r_state r) a = nonce s0 a) /\
+    (forall a, has_code (r_state r) a = has_code s0 a) /\
+    (forall a, suicided (r_state r) a = suicided s0 a) /\
+    r_refund r = 0).
+
+  (** * preCheck *)
+  Lemma pre_check_inl e (s : state) m b : pre_check e s m = inl b -> b = buy_gas e s m.
+  Proof.
+    unfold pre_check. destruct (m_check_nonce m); [|intros H; now inversion H].
+    destruct (nonce_too_high _ _); [discriminate|]. destruct (nonce_too_low _ _); [discriminate|].
+    intros H; now inversion H.
+  Qed.
+
+  Lemma pre_check_match e (s : state) m :
+    m_check_nonce m = false \/ nonce s (m_from m) = m_nonce m -> pre_check e s m = inl (buy_gas e s m).
+  Proof.
+    unfold pre_check. gen_unfold. intros [->|E]; [reflexivity|]. destruct (m_check_nonce m); [|reflexivity].
+    rewrite E, N.ltb_irrefl. reflexivity.
+  Qed.
+
+  Lemma pre_check_mismatch e (s : state) m :
+    m_check_nonce m = true -> nonce s (m_from m) <> m_nonce m ->
+    pre_check e s m = inr (if nonce s (m_from m) <? m_nonce m then ErrNonceTooHigh else ErrNonceTooLow).
+  Proof.
+    unfold pre_check. gen_unfold. intros -> Hne.
+    destruct (N.ltb_spec (nonce s (m_from m)) (m_nonce m)); [reflexivity|].
+    destruct (N.ltb_spec (m_nonce m) (nonce s (m_from m))); [reflexivity|lia].
+  Qed.
+
+  (** * The run phase *)
+  Lemma invocation_of_plan e (s : state) m b c s0 g :
+    pre_check e s m = inl b -> plan_of e b m = PRun c s0 g -> invocation e s m = Some (c, s0, g).
+  Proof. intros Hp Hpl. unfold invocation. now rewrite Hp, Hpl. Qed.
+
+  Lemma invocation_none e (s : state) m b err gl :
+    pre_check e s m = inl b -> plan_of e b m = PFail err gl -> invocation e s m = None.
+  Proof. intros Hp Hpl. unfold invocation. now rewrite Hp, Hpl. Qed.
+
+  Lemma run_phase_gas e (s : state) m b : wf_msg m -> H_gas e s m -> pre_check e s m = inl b ->
+    x_gas (run_phase run e b m) <= b_initial b /\ b_initial b < U64.
+  Proof.
+    intros Hwf Hgas Hp. pose proof (pre_check_inl _ _ _ _ Hp) as ->.
+    destruct (buy_gas_spec e s m Hwf) as (cost & _ & _ & _ & _ & _ & Hgi & _ & HG).
+    split; [|assumption].
+    assert (Hb : b_gas (buy_gas e s m) < U64) by (rewrite Hgi; assumption).
+    pose proof (plan_gas e (buy_gas e s m) m Hb) as Hpl. unfold run_phase.
+    destruct (plan_of e (buy_gas e s m) m) as [err gl|c s0 g] eqn:Epl; cbn [x_gas].
+    - lia.
+    - pose proof (Hgas c s0 g (invocation_of_plan _ _ _ _ _ _ _ Hp Epl)) as Hr. cbn beta in Hr. lia.
+  Qed.
+
+  (** TransitionDb, once the pre-check passed. *)
+  Lemma transition_eq e (s : state) m b : wf_msg m -> H_gas e s m -> pre_check e s m = inl b ->
+    let x := run_phase run e b m in
+    exists stgas, x_gas x <= stgas /\ stgas <= b_initial b /\ (x_refund x = 0 -> stgas = x_gas x) /\
+      transition_db run e s m =
+        inl (add_balance (pay_back e b m (x_state x) stgas) (gas_receiver e)
+                         ((b_initial b - stgas) * m_price m),
+             mkRes (b_initial b - stgas) (x_err x)).
+  Proof.
+    intros Hwf Hgas Hp x. destruct (run_phase_gas e s m b Hwf Hgas Hp) as [Hx HG].
+    destruct (finish_spec e b m x HG Hx) as (stgas & H1 & H2 & H3 & H4).
+    exists stgas. repeat split; try assumption. unfold transition_db. rewrite Hp. now rewrite <- H4.
+  Qed.
+
+  (** finish touches balances of the sender and the fee receiver only, and nothing else. *)
+  Lemma bal_add_balance (s : state) a v x :
+    bal (add_balance s a v) x = if x =? a then bal s a + v else bal s x.
+  Proof. reflexivity. Qed.
+
+  Lemma finish_fields e (b : bought R) m (x : ran R) :
+    let s' := fst (finish e b m x) in
+    nonce s' = nonce (x_state x) /\ has_code s' = has_code (x_state x) /\
+    suicided s' = suicided (x_state x) /\ dberr s' = dberr (x_state x) /\ rest s' = rest (x_state x) /\
+    forall a, a <> m_from m -> a <> gas_receiver e -> bal s' a = bal (x_state x) a.
+  Proof.
+    unfold finish. cbn [fst]. destruct (gasfee_skip _ _); repeat split; intros a H1 H2;
+      rewrite !bal_add_balance; destruct (N.eqb_spec a (gas_receiver e)); try contradiction;
+      destruct (N.eqb_spec a (m_from m)); try contradiction; reflexivity.
+  Qed.
+
+  Lemma bal_add_balance_ge (s : state) a v x : bal s x <= bal (add_balance s a v) x.
+  Proof. rewrite bal_add_balance. destruct (N.eqb_spec x a); subst; lia. Qed.
+
+  Lemma pay_back_ge e (b : bought R) m (s : state) g x : bal s x <= bal (pay_back e b m s g) x.
+  Proof.
+    unfold pay_back. destruct (gasfee_skip _ _).
+    - apply bal_add_balance_ge.
+    - etransitivity; [|apply bal_add_balance_ge]. apply bal_add_balance_ge.
+  Qed.
+
+  Lemma total_pay_back U e (b : bought R) m (s : state) g : NoDup U -> In (m_from m) U ->
+    total U (pay_back e b m s g) =
+    total U s + g * m_price m + (if gasfee_skip (b_adjusted b) (height e) then 0 else REFUND_VALUE).
+  Proof.
+    intros Hnd Hin. unfold pay_back. destruct (gasfee_skip _ _).
+    - rewrite total_add_balance by assumption. lia.
+    - rewrite !total_add_balance by assumption. lia.
+  Qed.
+
+  Lemma total_run_phase U e (s : state) m b : H_sum U e s m -> pre_check e s m = inl b ->
+    total U (x_state (run_phase run e b m)) = total U (b_state b).
+  Proof.
+    intros Hsum Hp. unfold run_phase. destruct (plan_of e b m) as [err gl|c s0 g] eqn:Epl; cbn [x_state].
+    - apply total_set_nonce.
+    - rewrite (Hsum c s0 g (invocation_of_plan _ _ _ _ _ _ _ Hp Epl)).
+      destruct (plan_state _ _ _ _ _ _ Epl) as (_ & -> & _). destruct c; [reflexivity|apply total_set_nonce].
+  Qed.
+
+  (** * Exact accounting of the ONG sum for every accepted transaction, on every chain id *)
+  Theorem ong_accounting U e (s : state) m :
+    wf_msg m -> NoDup U -> In (m_from m) U -> In (gas_receiver e) U ->
+    H_gas e s m -> H_sum U e s m ->
+    exists dust mint,
+      total U (snd (handle_eip155 clean run e s m)) + dust = total U s + mint /\
+      (buygas_fixed (chain_id e) (height e) = true -> dust = 0) /\
+      dust <= bal s (m_from m) /\
+      (height e <> REFUND_HEIGHT -> mint = 0) /\ mint <= REFUND_VALUE.
+  Proof.
+    intros Hwf Hnd Hf Hr Hgas Hsum. unfold handle_eip155.
+    destruct (pre_check e s m) as [b|err] eqn:Hp.
+    2:{ unfold transition_db. rewrite Hp. exists 0, 0. cbn [snd]. repeat split; lia. }
+    destruct (transition_eq e s m b Hwf Hgas Hp) as (stgas & Hs1 & Hs2 & _ & ->).
+    cbv beta iota zeta.
+    match goal with |- context [snd (if ?c then (?a, ?x) else (?b, ?x))] =>
+      replace (snd (if c then (a, x) else (b, x))) with x by (destruct c; reflexivity) end.
+    pose proof (pre_check_inl _ _ _ _ Hp) as Eb.
+    destruct (buy_gas_spec e s m Hwf) as (cost & Hc1 & Hc2 & Hc3 & Hc4 & Hc5 & _ & _ & _).
+    rewrite <- Eb in *.
+    set (G := b_initial b) in *.
+    exists (cost - G * m_price m),
+           (if gasfee_skip (b_adjusted b) (height e) then 0 else REFUND_VALUE).
+    rewrite total_commit, total_add_balance by assumption.
+    rewrite total_pay_back by assumption. rewrite (total_run_phase U e s m b Hsum Hp).
+    rewrite N.mul_sub_distr_r.
+    assert (stgas * m_price m <= G * m_price m) by (apply N.mul_le_mono_r; assumption).
+    rewrite Hc2.
+    pose proof (total_set_bal_in _ U s (m_from m) (bal s (m_from m) - cost) Hnd Hf) as Hset.
+    repeat split.
+    - lia.
+    - intros Hfix. rewrite (Hc5 (or_introl Hfix)). lia.
+    - lia.
+    - intros Hh. unfold gasfee_skip. destruct (N.eqb_spec (height e) REFUND_HEIGHT); [contradiction|].
+      now rewrite orb_true_r.
+    - destruct (gasfee_skip _ _); lia.
+  Qed.
+
+  (** Conservation: non-mainnet chain id, any height but the compensation height. *)
+  Theorem ong_conserved U e (s : state) m :
+    wf_msg m -> NoDup U -> In (m_from m) U -> In (gas_receiver e) U ->
+    chain_id e <> EIP155_CHAINID_MAINNET -> height e <> REFUND_HEIGHT ->
+    H_gas e s m -> H_sum U e s m ->
+    total U (snd (handle_eip155 clean run e s m)) = total U s.
+  Proof.
+    intros Hwf Hnd Hf Hr Hc Hh Hgas Hsum.
+    destruct (ong_accounting U e s m Hwf Hnd Hf Hr Hgas Hsum) as (dust & mint & E & Hd & _ & Hm & _).
+    assert (Hfix : buygas_fixed (chain_id e) (height e) = true).
+    { unfold buygas_fixed. destruct (N.eqb_spec (chain_id e) EIP155_CHAINID_MAINNET); [contradiction|reflexivity]. }
+    rewrite (Hd Hfix), (Hm Hh) in E. lia.
+  Qed.
+  Lemma snd_if {A B} (c : bool) (a b : A) (x : B) : snd (if c then (a, x) else (b, x)) = x.
+  Proof. now destruct c. Qed.
+
+  (** * Rejection on a nonce mismatch: an error, and the state is the input state. *)
+  Theorem nonce_mismatch_rejected e (s : state) m :
+    m_check_nonce m = true -> nonce s (m_from m) <> m_nonce m ->
+    handle_eip155 clean run e s m =
+      (OErr (if nonce s (m_from m) <? m_nonce m then ErrNonceTooHigh else ErrNonceTooLow), s).
+  Proof.
+    intros Hc Hne. unfold handle_eip155, transition_db. now rewrite (pre_check_mismatch e s m Hc Hne).
+  Qed.
+
+  (** Conversely an accepted transaction passed the check. *)
+  Lemma accepted_nonce e (s : state) m r :
+    fst (handle_eip155 clean run e s m) = OOk r -> m_check_nonce m = true -> nonce s (m_from m) = m_nonce m.
+  Proof.
+    intros Hok Hc. destruct (N.eq_dec (nonce s (m_from m)) (m_nonce m)) as [|Hne]; [assumption|].
+    rewrite (nonce_mismatch_rejected e s m Hc Hne) in Hok. discriminate.
+  Qed.
+
+  (** * The sender is charged at most gasLimit * gasPrice + value *)
+  Theorem charge_bound e (s : state) m :
+    wf_msg m -> H_gas e s m -> H_debit e s m ->
+    bal s (m_from m) <= bal (snd (handle_eip155 clean run e s m)) (m_from m) + m_gas m * m_price m + m_value m.
+  Proof.
+    intros Hwf Hgas Hdeb. unfold handle_eip155.
+    destruct (pre_check e s m) as [b|err] eqn:Hp.
+    2:{ unfold transition_db. rewrite Hp. cbn [snd]. lia. }
+    destruct (transition_eq e s m b Hwf Hgas Hp) as (stgas & _ & _ & _ & ->).
+    cbv beta iota zeta. rewrite snd_if. cbn [commit bal].
+    pose proof (pre_check_inl _ _ _ _ Hp) as Eb.
+    destruct (buy_gas_spec e s m Hwf) as (cost & Hc1 & Hc2 & Hc3 & _). rewrite <- Eb in *.
+    set (xs := x_state (run_phase run e b m)).
+    assert (Hxs : bal (b_state b) (m_from m) <= bal xs (m_from m) + m_value m).
+    { unfold xs, run_phase. destruct (plan_of e b m) as [err gl|c s0 g] eqn:Epl; cbn [x_state].
+      - cbn. lia.
+      - pose proof (Hdeb c s0 g (invocation_of_plan _ _ _ _ _ _ _ Hp Epl)) as Hd. cbn beta in Hd.
+        destruct (plan_state _ _ _ _ _ _ Epl) as (_ & Es0 & _).
+        assert (E0 : bal s0 (m_from m) = bal (b_state b) (m_from m)) by (rewrite Es0; now destruct c).
+        rewrite E0 in Hd. exact Hd. }
+    pose proof (bal_add_balance_ge (pay_back e b m xs stgas) (gas_receiver e)
+                  ((b_initial b - stgas) * m_price m) (m_from m)) as G1.
+    pose proof (pay_back_ge e b m xs stgas (m_from m)) as G2.
+    rewrite Hc2 in Hxs. cbn [bal set_bal] in Hxs. rewrite upd_same in Hxs. lia.
+  Qed.
+
+  (** * The sender nonce advances by exactly one for every accepted transaction *)
+  Theorem nonce_advances e (s : state) m r :
+    wf_msg m -> H_nonce e s m -> H_alive e s m ->
+    suicided s (m_from m) = false -> nonce s (m_from m) + 1 < U64 ->
+    fst (handle_eip155 clean run e s m) = OOk r ->
+    nonce (snd (handle_eip155 clean run e s m)) (m_from m) = nonce s (m_from m) + 1.
+  Proof.
+    intros Hwf Hn Hal Hs0 Hmax. unfold handle_eip155, transition_db.
+    destruct (pre_check e s m) as [b|err] eqn:Hp; [|discriminate].
+    destruct (finish e b m (run_phase run e b m)) as [s' res] eqn:Ef.
+    pose proof (finish_fields e b m (run_phase run e b m)) as Hff. rewrite Ef in Hff. cbn [fst] in Hff.
+    destruct Hff as (Hno & _ & Hsu & _). cbv zeta. intros _. rewrite snd_if. cbn [commit nonce].
+    rewrite Hno, Hsu.
+    pose proof (pre_check_inl _ _ _ _ Hp) as Eb.
+    destruct (buy_gas_spec e s m Hwf) as (cost & _ & Hc2 & _). rewrite <- Eb in *.
+    assert (Hnext : forall n, n + 1 < U64 -> (n + 1) mod 18446744073709551616 = n + 1)
+      by (intros n; rewrite U64_val; intros; lia).
+    unfold run_phase. destruct (plan_of e b m) as [er gl|c s0 g] eqn:Epl; cbn [x_state].
+    - cbn [set_nonce suicided nonce]. rewrite upd_same. rewrite Hc2. cbn [set_bal suicided nonce].
+      rewrite Hs0. unfold next_nonce_failed. apply Hnext. assumption.
+    - pose proof (Hn c s0 g (invocation_of_plan _ _ _ _ _ _ _ Hp Epl)) as Hd. cbn beta in Hd.
+      rewrite (Hal c s0 g (invocation_of_plan _ _ _ _ _ _ _ Hp Epl)). rewrite Hd.
+      destruct (plan_state _ _ _ _ _ _ Epl) as (_ & Es0 & _). rewrite Es0, Hc2.
+      destruct c; cbn [set_nonce set_bal nonce]; [|rewrite upd_same]; unfold next_nonce; apply Hnext; assumption.
+  Qed.
+
+  (** * Frame: the envelope moves ONG of the sender and of the fee receiver only *)
+  Theorem envelope_frame e (s : state) m a :
+    a <> m_from m -> a <> gas_receiver e ->
+    bal (snd (handle_eip155 clean run e s m)) a = bal (after_run run e s m) a /\
+    (forall c s0 g, invocation e s m = Some (c, s0, g) -> bal s0 a = bal s a) /\
+    (invocation e s m = None -> bal (after_run run e s m) a = bal s a).
+  Proof.
+    intros Ha1 Ha2. unfold handle_eip155, transition_db, after_run, invocation.
+    destruct (pre_check e s m) as [b|err] eqn:Hp.
+    2:{ cbn [snd]. repeat split; congruence. }
+    pose proof (pre_check_inl _ _ _ _ Hp) as Eb.
+    assert (Hb : bal (b_state b) a = bal s a).
+    { rewrite Eb. unfold buy_gas. destruct (buygas_short _ _); cbn [b_state];
+        unfold sub_balance, handle_sub_balance;
+        match goal with |- context [if ?c then None else _] => destruct c end; cbn [bal set_bal set_dberr];
+        try rewrite upd_other by assumption; reflexivity. }
+    destruct (finish e b m (run_phase run e b m)) as [s' res] eqn:Ef.
+    pose proof (finish_fields e b m (run_phase run e b m)) as Hff. rewrite Ef in Hff. cbn [fst] in Hff.
+    destruct Hff as (_ & _ & _ & _ & _ & Hbal). cbv zeta. rewrite snd_if. cbn [commit bal].
+    split; [apply Hbal; assumption|]. unfold run_phase.
+    destruct (plan_of e b m) as [er gl|c s0 g] eqn:Epl; cbn [x_state]; split.
+    - discriminate.
+    - intros _. cbn [set_nonce bal]. exact Hb.
+    - intros c' s0' g' H. inversion H; subst.
+      destruct (plan_state _ _ _ _ _ _ Epl) as (_ & Es0 & _). rewrite Es0. destruct c'; exact Hb.
+    - discriminate.
+  Qed.
+
+  (** * No storage error from the envelope: an accepted check always yields a result *)
+  Theorem accepted_gives_result e (s : state) m :
+    wf_msg m -> dberr s = false -> H_nodberr e s m ->
+    m_check_nonce m = false \/ nonce s (m_from m) = m_nonce m ->
+    exists r, fst (handle_eip155 clean run e s m) = OOk r.
+  Proof.
+    intros Hwf Hd Hnd Hc. unfold handle_eip155, transition_db.
+    pose proof (pre_check_match e s m Hc) as Hp. rewrite Hp.
+    destruct (finish e _ m (run_phase run e _ m)) as [s' res] eqn:Ef.
+    pose proof (finish_fields e (buy_gas e s m) m (run_phase run e (buy_gas e s m) m)) as Hff.
+    rewrite Ef in Hff. cbn [fst] in Hff. destruct Hff as (_ & _ & _ & Hdb & _).
+    cbv zeta. cbn [commit dberr]. rewrite Hdb.
+    destruct (buy_gas_spec e s m Hwf) as (cost & _ & Hc2 & _).
+    assert (Hx : dberr (x_state (run_phase run e (buy_gas e s m) m)) = false).
+    { unfold run_phase. destruct (plan_of e (buy_gas e s m) m) as [er gl|c s0 g] eqn:Epl; cbn [x_state].
+      - cbn [set_nonce dberr]. rewrite Hc2. exact Hd.
+      - rewrite (Hnd c s0 g (invocation_of_plan _ _ _ _ _ _ _ Hp Epl)).
+        destruct (plan_state _ _ _ _ _ _ Epl) as (_ & Es0 & _). rewrite Es0, Hc2. now destruct c. }
+    rewrite Hx. eexists. reflexivity.
+  Qed.
+
+  (** * The fee receiver is paid exactly usedGas * gasPrice, and usedGas <= gasLimit *)
+  Theorem fee_exact e (s : state) m r :
+    wf_msg m -> H_gas e s m -> m_from m <> gas_receiver e ->
+    fst (handle_eip155 clean run e s m) = OOk r ->
+    bal (snd (handle_eip155 clean run e s m)) (gas_receiver e)
+      = bal (after_run run e s m) (gas_receiver e) + used_gas r * m_price m /\
+    used_gas r <= m_gas m.
+  Proof.
+    intros Hwf Hgas Hne. unfold handle_eip155, after_run.
+    destruct (pre_check e s m) as [b|err] eqn:Hp; [|unfold transition_db; rewrite Hp; discriminate].
+    destruct (transition_eq e s m b Hwf Hgas Hp) as (stgas & _ & Hs2 & _ & ->).
+    cbv beta iota zeta. rewrite snd_if. intros Hok.
+    assert (Er : r = mkRes (b_initial b - stgas) (x_err (run_phase run e b m))).
+    { destruct (dberr _); cbn [fst] in Hok; [discriminate|now inversion Hok]. }
+    rewrite Er. cbn [used_gas commit bal]. rewrite bal_add_balance, N.eqb_refl.
+    pose proof (pre_check_inl _ _ _ _ Hp) as Eb.
+    destruct (buy_gas_spec e s m Hwf) as (cost & _ & _ & _ & _ & _ & _ & Hle & _). rewrite <- Eb in *.
+    split; [|lia]. f_equal. unfold pay_back.
+    assert (Hne' : gas_receiver e <> m_from m) by congruence.
+    destruct (gasfee_skip _ _); rewrite !bal_add_balance;
+      destruct (N.eqb_spec (gas_receiver e) (m_from m)); try contradiction; reflexivity.
+  Qed.
+
+  (** * A failed transaction (revert, out of gas, ...) costs the sender exactly the fee and
+        changes no other balance, nonce or code flag. *)
+  Theorem failed_tx_only_fee e (s : state) m r :
+    wf_msg m -> H_gas e s m -> H_revert e s m ->
+    (forall a, suicided s a = false) ->
+    m_from m <> gas_receiver e ->
+    buygas_fixed (chain_id e) (height e) = true -> height e <> REFUND_HEIGHT ->
+    fst (handle_eip155 clean run e s m) = OOk r -> vm_error r <> None ->
+    let s' := snd (handle_eip155 clean run e s m) in
+    bal s' (m_from m) + used_gas r * m_price m = bal s (m_from m) /\
+    bal s' (gas_receiver e) = bal s (gas_receiver e) + used_gas r * m_price m /\
+    (forall a, a <> m_from m -> a <> gas_receiver e -> bal s' a = bal s a) /\
+    (forall a, a <> m_from m -> nonce s' a = nonce s a) /\
+    (forall a, has_code s' a = has_code s a).
+  Proof.
+    intros Hwf Hgas Hrev Hsu Hne Hfix Hh. unfold handle_eip155.
+    destruct (pre_check e s m) as [b|err] eqn:Hp; [|unfold transition_db; rewrite Hp; discriminate].
+    destruct (transition_eq e s m b Hwf Hgas Hp) as (stgas & Hs1 & Hs2 & Hs3 & ->).
+    cbv beta iota zeta. rewrite snd_if. intros Hok Hfail.
+    assert (Er : r = mkRes (b_initial b - stgas) (x_err (run_phase run e b m))).
+    { destruct (dberr _); cbn [fst] in Hok; [discriminate|now inversion Hok]. }
+    rewrite Er in *. cbn [used_gas vm_error] in *. clear Hok Er.
+    pose proof (pre_check_inl _ _ _ _ Hp) as Eb.
+    destruct (buy_gas_spec e s m Hwf) as (cost & Hc1 & Hc2 & _ & _ & Hc5 & Hgi & _ & HG).
+    rewrite <- Eb in *. rewrite (Hc5 (or_introl Hfix)) in *. clear Hc5.
+    set (G := b_initial b) in *.
+    (* the state after the run phase is the state after buyGas, sender nonce aside *)
+    assert (Hx : (forall a, bal (x_state (run_phase run e b m)) a = bal (b_state b) a) /\
+                 (forall a, a <> m_from m -> nonce (x_state (run_phase run e b m)) a = nonce (b_state b) a) /\
+                 (forall a, has_code (x_state (run_phase run e b m)) a = has_code (b_state b) a) /\
+                 (forall a, suicided (x_state (run_phase run e b m)) a = suicided (b_state b) a) /\
+                 x_refund (run_phase run e b m) = 0).
+    { revert Hfail. unfold run_phase. destruct (plan_of e b m) as [er gl|c s0 g] eqn:Epl;
+        cbn [x_state x_err x_refund].
+      - intros _. cbn [set_nonce bal nonce has_code suicided]. repeat split; try reflexivity.
+        intros a Ha. now rewrite upd_other.
+      - intros Hfail.
+        assert (Hre : r_err (run c s0 m g) <> None) by (destruct (r_err (run c s0 m g)); [discriminate|exact (fun _ => Hfail eq_refl)]).
+        destruct (Hrev c s0 g (invocation_of_plan _ _ _ _ _ _ _ Hp Epl) Hre) as (B1 & B2 & B3 & B4 & B5).
+        destruct (plan_state _ _ _ _ _ _ Epl) as (_ & Es0 & _).
+        repeat split; try assumption; intros a; [rewrite B1|intros Ha; rewrite B2 by assumption|rewrite B3|rewrite B4];
+          rewrite Es0; destruct c; cbn [set_nonce bal nonce has_code suicided]; try reflexivity.
+        now rewrite upd_other. }
+    destruct Hx as (X1 & X2 & X3 & X4 & X5). pose proof (Hs3 X5) as Est.
+    assert (Hskip : gasfee_skip (b_adjusted b) (height e) = true).
+    { unfold gasfee_skip. destruct (N.eqb_spec (height e) REFUND_HEIGHT); [contradiction|]. now rewrite orb_true_r. }
+    assert (Hne' : gas_receiver e <> m_from m) by congruence.
+    assert (Hmul : (G - stgas) * m_price m + stgas * m_price m = G * m_price m).
+    { rewrite <- N.mul_add_distr_r. f_equal. lia. }
+    cbn [commit bal nonce has_code]. unfold pay_back. rewrite Hskip.
+    repeat split.
+    - rewrite !bal_add_balance, N.eqb_refl. destruct (N.eqb_spec (m_from m) (gas_receiver e)); [contradiction|].
+      rewrite X1, Hc2. cbn [set_bal bal]. rewrite upd_same. lia.
+    - rewrite !bal_add_balance, N.eqb_refl. destruct (N.eqb_spec (gas_receiver e) (m_from m)); [contradiction|].
+      rewrite X1, Hc2. cbn [set_bal bal]. now rewrite upd_other.
+    - intros a Ha1 Ha2. rewrite !bal_add_balance.
+      destruct (N.eqb_spec a (gas_receiver e)); [contradiction|]. destruct (N.eqb_spec a (m_from m)); [contradiction|].
+      rewrite X1, Hc2. cbn [set_bal bal]. now rewrite upd_other.
+    - intros a Ha. cbn [add_balance set_bal suicided nonce]. rewrite X4, Hc2. cbn [set_bal suicided nonce].
+      rewrite Hsu. rewrite X2 by assumption. now rewrite Hc2.
+    - intros a. cbn [add_balance set_bal suicided has_code]. rewrite X4, Hc2. cbn [set_bal suicided has_code].
+      rewrite Hsu. rewrite X3. now rewrite Hc2.
+  Qed.
+End Envelope.
+
+(** * SELFDESTRUCT as the state calls of opSuicide (AddBalance to the beneficiary, then
+      StateDB.Suicide = SetBalance(self, 0)) *)
+Section Selfdestruct.
+  Variable R : Type.
+  Notation state := (state R).
+
+  Lemma account_empty_add_balance (s : state) a v x : account_empty (add_balance s a v) x = account_empty s x.
+  Proof. reflexivity. Qed.
+
+  (** beneficiary <> self: the sum is conserved *)
+  Theorem selfdestruct_other_conserves U (s : state) self ben :
+    NoDup U -> In self U -> In ben U -> self <> ben -> account_empty s self = false ->
+    total U (op_selfdestruct s self ben) = total U s.
+  Proof.
+    intros Hnd Hs Hb Hne Hem. unfold op_selfdestruct, suicide. rewrite account_empty_add_balance, Hem.
+    pose proof (total_set_bal_in R U (mark_suicided (add_balance s ben (bal s self)) self) self 0 Hnd Hs) as H1.
+    rewrite total_mark_suicided, total_add_balance in H1 by assumption.
+    cbn [mark_suicided add_balance set_bal bal] in H1. rewrite upd_other in H1 by assumption. lia.
+  Qed.
+
+  (** beneficiary = self: the whole balance of the contract disappears *)
+  Theorem selfdestruct_self_burns U (s : state) self :
+    NoDup U -> In self U -> account_empty s self = false ->
+    total U (op_selfdestruct s self self) + bal s self = total U s.
+  Proof.
+    intros Hnd Hs Hem. unfold op_selfdestruct, suicide. rewrite account_empty_add_balance, Hem.
+    pose proof (total_set_bal_in R U (mark_suicided (add_balance s self (bal s self)) self) self 0 Hnd Hs) as H1.
+    rewrite total_mark_suicided, total_add_balance in H1 by assumption.
+    cbn [mark_suicided add_balance set_bal bal] in H1. rewrite upd_same in H1. lia.
+  Qed.
+End Selfdestruct.
+
+(** * Concrete instances: non-vacuity, sharpness of the side conditions, and the two refutations *)
+Section Concrete.
+  Notation state := (state unit).
+  Definition clean0 : (addr -> bool) -> unit -> unit := fun _ u => u.
+
+  (** evm.Call to an account without code (plain value transfer) / evm.Create with empty init code
+      reduced to what matters here: the nonce step. *)
+  Definition run_plain (c : bool) (s : state) (m : msg) (g : N) : run_result unit :=
+    match m_to m with
+    | Some to => mkRun (transfer s (m_from m) to (m_value m)) g 0 None
+    | None => mkRun (set_nonce s (m_from m) (next_nonce (nonce s (m_from m)))) g 0 None
+    end.
+
+  (** evm.Call into a contract whose code is ADDRESS SELFDESTRUCT: value transfer, then opSuicide
+      with beneficiary = self.  5003 gas are consumed (ADDRESS 2 + SELFDESTRUCT 5000 + ...). *)
+  Definition run_selfdestruct_self (c : bool) (s : state) (m : msg) (g : N) : run_result unit :=
+    match m_to m with
+    | Some to => mkRun (op_selfdestruct (transfer s (m_from m) to (m_value m)) to to) (g - 5003) 0 None
+    | None => mkRun s g 0 None
+    end.
+
+  (* accounts: 1 = sender, 2 = fee receiver, 3 = callee *)
+  Definition st0 (b1 b3 : N) (code3 : bool) : state :=
+    mkState (fun a => if a =? 1 then b1 else if a =? 3 then b3 else 0)
+            (fun a => if a =? 1 then 7 else if a =? 3 then (if code3 then 1 else 0) else 0)
+            (fun a => (a =? 3) && code3) (fun _ => false) false tt.
+  Definition msg0 (gas price value : N) : msg := mkMsg 1 (Some 3) 7 price gas value [] true.
+  Definition U0 : list addr := [1; 2; 3].
+  Definition polaris (h : N) : env := mkEnv 5851 h 2.
+  Definition mainnet (h : N) : env := mkEnv EIP155_CHAINID_MAINNET h 2.
+  (** [run_plain] satisfies every hypothesis, for every transaction. *)
+  Lemma inv_inversion e (s : state) m c s0 g : invocation e s m = Some (c, s0, g) ->
+    exists b, pre_check e s m = inl b /\ plan_of e b m = PRun c s0 g.
+  Proof.
+    unfold invocation. destruct (pre_check e s m) as [b|]; [|discriminate].
+    destruct (plan_of e b m) eqn:E; [discriminate|]. intros H; inversion H; subst. now exists b.
+  Qed.
+
+  Lemma run_plain_gas e s m : H_gas unit run_plain e s m.
+  Proof. intros c s0 g _. unfold run_plain. destruct (m_to m); cbn; lia. Qed.
+
+  Lemma run_plain_sum U e s m : NoDup U -> In (m_from m) U -> (forall to, m_to m = Some to -> In to U) ->
+    H_sum unit run_plain U e s m.
+  Proof.
+    intros Hnd Hf Ht c s0 g Hinv. destruct (inv_inversion _ _ _ _ _ _ Hinv) as (b & Hp & Epl).
+    destruct (plan_state _ _ _ _ _ _ _ Epl) as (_ & Es0 & Hv). unfold run_plain.
+    destruct (m_to m) as [to|] eqn:Eto; cbn [r_state].
+    - apply total_transfer; auto. rewrite Es0. now destruct c.
+    - apply total_set_nonce.
+  Qed.
+
+  Lemma run_plain_nonce e s m : H_nonce unit run_plain e s m.
+  Proof.
+    intros c s0 g Hinv. destruct (inv_inversion _ _ _ _ _ _ Hinv) as (b & Hp & Epl).
+    destruct (plan_state _ _ _ _ _ _ _ Epl) as (Ec & _ & _). unfold run_plain, is_create in *.
+    destruct (m_to m) as [to|]; subst c; cbn [r_state].
+    - unfold transfer, sub_balance, handle_sub_balance. destruct (_ <? _); reflexivity.
+    - cbn. now rewrite upd_same.
+  Qed.
+
+  Lemma run_plain_debit e s m : H_debit unit run_plain e s m.
+  Proof.
+    intros c s0 g Hinv. destruct (inv_inversion _ _ _ _ _ _ Hinv) as (b & Hp & Epl).
+    destruct (plan_state _ _ _ _ _ _ _ Epl) as (_ & Es0 & Hv).
+    assert (Hv' : m_value m <= bal s0 (m_from m)) by (rewrite Es0; now destruct c).
+    unfold run_plain. destruct (m_to m) as [to|]; cbn [r_state]; [|cbn; lia].
+    unfold transfer. rewrite sub_balance_ok by assumption. rewrite bal_add_balance.
+    destruct (N.eqb_spec (m_from m) to) as [E|E]; [rewrite <- E|]; cbn [set_bal bal]; rewrite upd_same; lia.
+  Qed.
+
+  Lemma run_plain_fields (s : state) m c g :
+    suicided (r_state (run_plain c s m g)) = suicided s /\ (m_value m <= bal s (m_from m) -> dberr (r_state (run_plain c s m g)) = dberr s).
+  Proof.
+    unfold run_plain. destruct (m_to m); cbn [r_state]; split; try reflexivity.
+    - unfold transfer, sub_balance, handle_sub_balance. destruct (_ <? _); reflexivity.
+    - intros H. unfold transfer. now rewrite sub_balance_ok.
+  Qed.
+
+  Lemma run_plain_alive e s m : wf_msg m -> suicided s (m_from m) = false -> H_alive unit run_plain e s m.
+  Proof.
+    intros Hwf Hs c s0 g Hinv. destruct (inv_inversion _ _ _ _ _ _ Hinv) as (b & Hp & Epl).
+    destruct (plan_state _ _ _ _ _ _ _ Epl) as (_ & Es0 & _).
+    rewrite (proj1 (run_plain_fields s0 m c g)). rewrite Es0.
+    pose proof (pre_check_inl _ _ _ _ _ Hp) as ->.
+    destruct (buy_gas_spec unit e s m Hwf) as (cost & _ & -> & _). now destruct c.
+  Qed.
+
+  Lemma run_plain_nodberr e s m : H_nodberr unit run_plain e s m.
+  Proof.
+    intros c s0 g Hinv. destruct (inv_inversion _ _ _ _ _ _ Hinv) as (b & Hp & Epl).
+    destruct (plan_state _ _ _ _ _ _ _ Epl) as (_ & Es0 & Hv).
+    apply (proj2 (run_plain_fields s0 m c g)). rewrite Es0. now destruct c.
+  Qed.
+End Concrete.
